@@ -68,11 +68,11 @@ func genStep(t *rapid.T) Step {
 
 func genPlan(t *rapid.T) Plan {
 	return Plan{
-		Seed:     rapid.Uint64Range(1, 1<<40).Draw(t, "seed"),
-		PV:       uint8(rapid.SampledFrom([]int{2, 2, 3, 4, 5}).Draw(t, "pv")),
-		StartInc: rapid.IntRange(0, 3).Draw(t, "startinc"),
-		Meta:     rapid.SampledFrom([]string{"", "m0"}).Draw(t, "meta0"),
-		Steps:    rapid.SliceOfN(rapid.Custom(genStep), 1, 12).Draw(t, "steps"),
+		Seed:       rapid.Uint64Range(1, 1<<40).Draw(t, "seed"),
+		PV:         uint8(rapid.SampledFrom([]int{2, 2, 3, 4, 5}).Draw(t, "pv")),
+		StartInc:   rapid.IntRange(0, 3).Draw(t, "startinc"),
+		Meta:       rapid.SampledFrom([]string{"", "m0"}).Draw(t, "meta0"),
+		Steps:      rapid.SliceOfN(rapid.Custom(genStep), 1, 12).Draw(t, "steps"),
 		StartupInc: rapid.SampledFrom([]uint32{0, 0, 0, 1, 2, 7, 1 << 20}).Draw(t, "startup"),
 	}
 }
